@@ -967,6 +967,84 @@ def generate():
     return {'grammar_rules_introspected': nrules}
 
 
+# --- stream "text-to-rows": statement TEXT -> lex -> parse -> to_cstmt -> compile -> lower -> exec, all inside Coq ----
+
+def observe_t2r(case):
+    """implementation side: conn.execute(TEXT).fetchall() + description datatypes (builder-C05's end-to-end observer,
+    but the statement is handed over as text)"""
+    from . import c05, values
+    import beanquery
+    e_ = c05.env()
+    conn = e_['conn']
+    rows = [c05.dec_row(r) for r in case['rows']]
+    conn.tables['v'] = impl.make_table('v', [(c, c05.E2E_PY[t]) for c, t in c05.E2E_COLS], rows)
+    rec = {'phase': None, 'result': None, 'msg': None}
+    try:
+        curs = conn.execute(case['text'], c05.py_params(case.get('params')))
+        types = [[ord(c) for c in c05.tname(col.datatype)] for col in curs.description]
+        rec.update(phase='ok', result=[0, types, values.canon_rows(curs.fetchall())])
+    except beanquery.ParseError as e:
+        rec.update(phase='parse', result=[4], msg=str(e)[:200])
+    except beanquery.ProgrammingError as e:
+        rec.update(phase='compile', result=[1, c05.kind_of(e)], msg=str(e)[:200])
+    except Exception as e:  # noqa: BLE001
+        rec.update(phase='raise', result=[2], msg=repr(e)[:200])
+    return rec
+
+
+def text_to_rows(tier, rng):
+    from . import c05, values
+    cases = c05.e2e_cases(tier, rng)
+    fixed = [c for c in cases if c['rule'] == 'e2e:fixed']
+    rand = [c for c in cases if c['rule'] != 'e2e:fixed']
+    if tier == 'quick':
+        rand = rand[:280]
+    cases = rand + fixed
+    # the same statements respelled: upper/lower keywords, extra blanks and a comment (the front end must not care)
+    for c in list(rand[:40]):
+        t = c['text']
+        cases.append(dict(c, text='/* respelled */ ' + t.replace(' FROM ', '\n  from ').replace('SELECT ', 'select  ') + ' ; end',
+                          rule=c['rule'] + ':respelled'))
+    outside = ['PRINT', 'SELECT a FROM year = 2020', "SELECT b['\u00e9'] FROM #v", 'BALANCES', 'SELECT a FROM #nosuch',
+               "SELECT a FROM #v WHERE b = 'caf\u00e9' ORDER BY a", 'SELECT 1 +']
+    cases += [dict(stream='t2r', rule='t2r:outside', text=t, params=None, rows=fixed[0]['rows']) for t in outside]
+    recs = core.pmap(observe_t2r, cases)
+    sc = '(' + c05.e2e_schema_coq() + ' :: ' + c05.schema_coq() + ')'
+    exprs = []
+    for c in cases:
+        rows = values.rows_to_coq([c05.dec_row(x) for x in c['rows']])
+        exprs.append(f'(run_text_out {sc} [("v", {rows})] {c05.c_params(c.get("params"))} {cstr(c["text"])})')
+    models = core.coq_eval('c06t', ['Base.PyValue', 'Model.Compile', 'Model.Link', 'Model.Front'], exprs, shard=40)
+    hist = {'impl_phase': {}, 'model': {}, 'not_lowerable_stage': {}}
+    violations = {}
+    compared = rows_compared = 0
+    names = {0: 'rows', 1: 'rejected-by-compiler', 2: 'raises', 3: 'not-lowerable', 4: 'does-not-parse', 5: 'not-translatable'}
+    for c, r, m in zip(cases, recs, models):
+        hist['impl_phase'][r['phase']] = hist['impl_phase'].get(r['phase'], 0) + 1
+        hist['model'][names[m[0]]] = hist['model'].get(names[m[0]], 0) + 1
+        if m[0] == 3:
+            hist['not_lowerable_stage'][str(m[1])] = hist['not_lowerable_stage'].get(str(m[1]), 0) + 1
+            continue
+        if m[0] == 5:
+            continue
+        compared += 1
+        if m[0] == 0 and r['phase'] == 'ok':
+            rows_compared += 1
+        if c05.norm(m) != c05.norm(r['result']):
+            short = c['text'] if len(c['text']) < 200 else c['text'][:197] + '...'
+            sig = 'text-to-rows:' + short
+            if sig not in violations and len(violations) < 3:
+                violations[sig] = core.Violation(
+                    'text-to-rows', f'{short!r} params={c.get("params")} over rows {c["rows"]}: conn.execute(text) '
+                    f'{c05.describe_e2e(r["result"], r["msg"])} but lex+parse+translate+compile+lower+exec in Coq gives '
+                    f'{c05.describe_e2e(m, None) if m[0] < 4 else names[m[0]]}',
+                    {'case': c, 'impl': r['result'], 'model': m, 't2r': True}, signature=sig)
+    cov = {'t2r_statements': len(cases), 't2r_compared': compared, 't2r_rows_compared': rows_compared,
+           't2r_not_lowerable': hist['model'].get('not-lowerable', 0), 't2r_not_translatable': hist['model'].get('not-translatable', 0),
+           't2r_histograms': hist, 't2r_samples': [c['text'] for c in cases[:3]]}
+    return cov, list(violations.values())
+
+
 # --- evaluation helpers -----------------------------------------------------------------------------------------
 
 def coq_print(stmts, tag):
@@ -1079,6 +1157,8 @@ def run(tier, rng):
         violations.append(core.Violation('parse-not-a-function-of-text', f'parse({text!r}) after parsing case variants of the same text '
                                          f'returned the literal {got!r} instead of {want!r}', {'text': text, 'got': got, 'want': want},
                                          signature='literal-case:' + text))
+    t2r_cov, t2r_viol = text_to_rows(tier, rng)
+    violations.extend(t2r_viol)
     npairs, loose, stricter = needs_space_mirror()
     for a, b in loose[:2]:
         violations.append(core.Violation(
@@ -1192,6 +1272,8 @@ def run(tier, rng):
         'model_infidelity_on_mutated': {'count': len(infid), 'rate': round(len(infid) / max(1, len(muts)), 5),
                                         'by_class': classes, 'samples': infid[:12]},
     }
+    cov.update(t2r_cov)
+    cov['evaluations'] += t2r_cov['t2r_statements']
     return {'coverage': cov, 'violations': violations}
 
 
@@ -1314,6 +1396,15 @@ def shrink_tree(st, rng, rounds=8):
 
 
 def replay(rec):
+    if rec.get('t2r'):
+        from . import c05, values
+        c = rec['case']
+        r = observe_t2r(c)
+        sc = '(' + c05.e2e_schema_coq() + ' :: ' + c05.schema_coq() + ')'
+        rows = values.rows_to_coq([c05.dec_row(x) for x in c['rows']])
+        m = core.coq_eval('c06tr', ['Base.PyValue', 'Model.Compile', 'Model.Link', 'Model.Front'],
+                          [f'(run_text_out {sc} [("v", {rows})] {c05.c_params(c.get("params"))} {cstr(c["text"])})'])[0]
+        return m[0] in (3, 5) or c05.norm(m) == c05.norm(r['result'])
     if 'model' in rec:
         ri = run_impl(rec['text'])
         return ([ri[1]] if ri[0] == 'ok' else []) == rec['model']
